@@ -364,6 +364,7 @@ func (e *Engine) ownProof() *UnitResult {
 		}
 	}
 	owned := map[string]bool{}
+	allAcc := e.fieldAccesses()
 	for _, t := range e.spec.OwnedTypes {
 		owned[t] = true
 		// every field of an owned type needs a policy (fail closed)
@@ -372,7 +373,37 @@ func (e *Engine) ownProof() *UnitResult {
 				for i := 0; i < st.NumFields(); i++ {
 					f := t + "." + st.Field(i).Name()
 					_, g := e.spec.Guarded[f]
-					add("policy declared for "+f, "-", e.spec.Owners[f] != nil || g, "field "+f+" of an owned type has neither an owner nor a guardedby declaration")
+					if e.spec.Owners[f] != nil || g {
+						add("policy declared for "+f, "-", true, "")
+						continue
+					}
+					// no declared policy (a field added later): confined to one
+					// single-instance role after publication is race free by itself
+					owner, okInf, why := "", true, ""
+					for _, a := range allAcc {
+						if a.field != f || a.fresh {
+							continue
+						}
+						rs := roles[a.fn]
+						if len(rs) == 0 {
+							okInf, why = false, "accessed by "+e.names[a.fn]+", which is reachable from no declared thread root"
+							break
+						}
+						for r := range rs {
+							if multi[r] {
+								okInf, why = false, "accessed by role "+r+" of which several instances may run at once"
+							} else if owner == "" {
+								owner = r
+							} else if owner != r {
+								okInf, why = false, "accessed by roles "+owner+" and "+r
+							}
+						}
+					}
+					if okInf {
+						add("field "+f+" has no declared policy but is confined to one role ("+owner+")", "-", true, "")
+					} else {
+						add("policy declared for "+f, "-", false, "field "+f+" of an owned type has neither an owner nor a guardedby declaration and is not confined to one goroutine role: "+why)
+					}
 				}
 			}
 		} else {
